@@ -2,8 +2,9 @@
 C10 — subsetting keeps every selected glyph intact and consistently re-indexed.
 Model: `SfntV.Subset.subset font glyphs order` (Model/Subset.lean) of `(*sfnt.Font).Subset` as
 repaired (see cfg/C10.py).  All theorems hold for every font, every duplicate-free glyph list and
-every iteration order `o` of the Go maps (`o.rules`: order of the rule list, `o.pops`: keys
-returned by `pop(todo)`); `sub.order` is the old glyph id of every glyph of the subset.
+every iteration order `o` of the Go maps (`o.rules k`: order of the rule list in round `k` of the
+outer loop, a permutation; `o.pops[k]`: keys returned by `pop(todo)` in round `k`); `sub.order` is
+the old glyph id of every glyph of the subset.
 Only property theorems and non-vacuity examples live here.
 -/
 import SfntV.Proofs.SubsetMain
@@ -19,7 +20,8 @@ open SfntV SfntV.Subset
 width and name (for CFF the very same glyph record) — and the requested glyphs come first, in the
 requested order: `sub.order = glyphs ++ extras`.  No glyph occurs twice. -/
 theorem C10_positions {f : Font} {glyphs : List Gid} {o : Order} {sub : Sub}
-    (hnd : glyphs.Nodup) (h : subset f glyphs o = .ok sub) :
+    (hnd : glyphs.Nodup) (hp : ∀ k x, (o.rules k x).Perm x)
+    (h : subset f glyphs o = .ok sub) :
     (∃ extras, sub.order = glyphs ++ extras) ∧ sub.order.Nodup ∧
     (∀ g ∈ sub.order, g < f.glyphs.length) ∧
     sub.glyphs.length = sub.order.length ∧ sub.hasNames = f.hasNames ∧
@@ -27,13 +29,13 @@ theorem C10_positions {f : Font} {glyphs : List Gid} {o : Order} {sub : Sub}
       ∃ g', sub.glyphs[j]? = some g' ∧ g'.payload = (f.glyph old).payload ∧
         g'.width = (f.glyph old).width ∧ g'.name = (f.glyph old).name ∧
         (f.isCFF = true → g' = f.glyph old) := by
-  obtain ⟨s1, s2, r⟩ := subset_ok hnd h
+  obtain ⟨s2, r⟩ := subset_ok hnd hp h
   have he := r.eq
   have ho : sub.order = s2.glyphs := by rw [he]; rfl
   refine ⟨?_, ?_, ?_, ?_, ?_, ?_⟩
-  · obtain ⟨e, h2⟩ := r.ext1.trans r.ext2
+  · obtain ⟨e, h2⟩ := r.ext
     exact ⟨e, by rw [ho, h2]; rfl⟩
-  · rw [ho]; exact r.inv2.nodup
+  · rw [ho]; exact r.inv.nodup
   · rw [ho]; exact r.inRange
   · rw [he]; simp [assemble]
   · rw [he]; rfl
@@ -47,11 +49,12 @@ theorem C10_positions {f : Font} {glyphs : List Gid} {o : Order} {sub : Sub}
 /-- Requested glyph `i` of the subset is the requested original glyph (corollary of
 `C10_positions` in the form the property is worded). -/
 theorem C10_positions_requested {f : Font} {glyphs : List Gid} {o : Order} {sub : Sub}
-    (hnd : glyphs.Nodup) (h : subset f glyphs o = .ok sub) (i : Nat) (old : Gid)
+    (hnd : glyphs.Nodup) (hp : ∀ k x, (o.rules k x).Perm x)
+    (h : subset f glyphs o = .ok sub) (i : Nat) (old : Gid)
     (hi : glyphs[i]? = some old) :
     ∃ g', sub.glyphs[i]? = some g' ∧ g'.payload = (f.glyph old).payload ∧
       g'.width = (f.glyph old).width ∧ g'.name = (f.glyph old).name := by
-  have hp := C10_positions hnd h
+  have hp := C10_positions hnd hp h
   obtain ⟨e, he⟩ := hp.1
   have : sub.order[i]? = some old := by
     rw [he]
@@ -66,9 +69,10 @@ theorem C10_positions_requested {f : Font} {glyphs : List Gid} {o : Order} {sub 
 /-- Closure: every component of a composite glyph of the subset is itself in the subset (extras are
 appended after the requested glyphs by `C10_positions`). -/
 theorem C10_closure {f : Font} {glyphs : List Gid} {o : Order} {sub : Sub}
-    (hnd : glyphs.Nodup) (h : subset f glyphs o = .ok sub) (hk : f.isCFF = false) :
+    (hnd : glyphs.Nodup) (hp : ∀ k x, (o.rules k x).Perm x)
+    (h : subset f glyphs o = .ok sub) (hk : f.isCFF = false) :
     ∀ g ∈ sub.order, ∀ c ∈ (f.glyph g).comps, c ∈ sub.order := by
-  obtain ⟨s1, s2, r⟩ := subset_ok hnd h
+  obtain ⟨s2, r⟩ := subset_ok hnd hp h
   have ho : sub.order = s2.glyphs := by rw [r.eq]; rfl
   rw [ho]; exact r.closed hk
 
@@ -76,12 +80,13 @@ theorem C10_closure {f : Font} {glyphs : List Gid} {o : Order} {sub : Sub}
 subset holds exactly the glyph the original reference `c` named — so (with `C10_positions`) it
 points to the same outline as before.  Nothing else of the glyph changes. -/
 theorem C10_components {f : Font} {glyphs : List Gid} {o : Order} {sub : Sub}
-    (hnd : glyphs.Nodup) (h : subset f glyphs o = .ok sub) (hk : f.isCFF = false)
+    (hnd : glyphs.Nodup) (hp : ∀ k x, (o.rules k x).Perm x)
+    (h : subset f glyphs o = .ok sub) (hk : f.isCFF = false)
     (j : Nat) (old : Gid) (hj : sub.order[j]? = some old) :
     ∃ g', sub.glyphs[j]? = some g' ∧ g'.comps.length = (f.glyph old).comps.length ∧
       ∀ (k : Nat) (c : Gid), (f.glyph old).comps[k]? = some c →
         ∃ c', g'.comps[k]? = some c' ∧ sub.order[c']? = some c := by
-  obtain ⟨s1, s2, r⟩ := subset_ok hnd h
+  obtain ⟨s2, r⟩ := subset_ok hnd hp h
   have he := r.eq
   have ho : sub.order = s2.glyphs := by rw [he]; rfl
   rw [ho] at hj ⊢
@@ -90,18 +95,19 @@ theorem C10_components {f : Font} {glyphs : List Gid} {o : Order} {sub : Sub}
   simp only [assemble, List.getElem?_map, hj, Option.map_some, hk]
   refine ⟨_, rfl, by simp [fixComponents], ?_⟩
   intro k c hc
-  exact getElem?_map_lookup r.inv2 (r.closed hk old hmem) hc
+  exact getElem?_map_lookup r.inv (r.closed hk old hmem) hc
 
 /-- Character maps: the subset has a subtable for exactly the keys of the original, and in each
 `code ↦ n` holds iff the original maps `code` to the glyph that is glyph `n` of the subset.  So
 every character of a retained glyph maps to its new index and no other character is mapped. -/
 theorem C10_cmap {f : Font} {glyphs : List Gid} {o : Order} {sub : Sub}
-    (hnd : glyphs.Nodup) (h : subset f glyphs o = .ok sub) :
+    (hnd : glyphs.Nodup) (hp : ∀ k x, (o.rules k x).Perm x)
+    (h : subset f glyphs o = .ok sub) :
     (f.cmaps = none → sub.cmaps = none) ∧
     ∀ t, f.cmaps = some t → ∃ t', sub.cmaps = some t' ∧ t'.map (·.1) = t.map (·.1) ∧
       ∀ (i : Nat) (key : String) (c : CMap), t[i]? = some (key, c) →
         ∃ c', t'[i]? = some (key, c') ∧ CMapOK sub.order c c' := by
-  obtain ⟨s1, s2, r⟩ := subset_ok hnd h
+  obtain ⟨s2, r⟩ := subset_ok hnd hp h
   have he := r.eq
   have ho : sub.order = s2.glyphs := by rw [he]; rfl
   constructor
@@ -111,13 +117,14 @@ theorem C10_cmap {f : Font} {glyphs : List Gid} {o : Order} {sub : Sub}
     · simp [List.map_map, Function.comp_def]
     · intro i key c hi
       refine ⟨subCMap s2.newGid c, by simp [List.getElem?_map, hi], ?_⟩
-      rw [ho]; exact subCMap_ok r.inv2 c
+      rw [ho]; exact subCMap_ok r.inv c
 
 /-- CFF data that is copied per glyph: the CID of subset glyph `j` is the CID of the original glyph,
 and the built-in encoding sends each code to the new index of the glyph it named (0 = .notdef if
 that glyph is not in the subset). -/
 theorem C10_cff_cid_encoding {f : Font} {glyphs : List Gid} {o : Order} {sub : Sub}
-    (hnd : glyphs.Nodup) (h : subset f glyphs o = .ok sub) (hk : f.isCFF = true) :
+    (hnd : glyphs.Nodup) (hp : ∀ k x, (o.rules k x).Perm x)
+    (h : subset f glyphs o = .ok sub) (hk : f.isCFF = true) :
     (∀ t, f.gidToCID = some t → ∃ t', sub.gidToCID = some t' ∧ t'.length = sub.order.length ∧
       ∀ (j : Nat) (old : Gid), sub.order[j]? = some old → t'[j]? = some (t.getD old 0)) ∧
     (f.gidToCID = none → sub.gidToCID = none) ∧
@@ -126,7 +133,7 @@ theorem C10_cff_cid_encoding {f : Font} {glyphs : List Gid} {o : Order} {sub : S
       ∀ (code : Nat) (g : Gid), e[code]? = some g →
         (∃ n, sub.order[n]? = some g ∧ e'[code]? = some n) ∨
         (g ∉ sub.order ∧ e'[code]? = some 0)) := by
-  obtain ⟨s1, s2, r⟩ := subset_ok hnd h
+  obtain ⟨s2, r⟩ := subset_ok hnd hp h
   have he := r.eq
   have ho : sub.order = s2.glyphs := by rw [he]; rfl
   refine ⟨?_, ?_, ?_, ?_⟩
@@ -144,20 +151,21 @@ theorem C10_cff_cid_encoding {f : Font} {glyphs : List Gid} {o : Order} {sub : S
     rw [ho]
     cases hl : s2.newGid.lookup g with
     | some n =>
-      left; exact ⟨n, (r.inv2 g n).1 hl, by simp [List.getElem?_map, hg, hl]⟩
+      left; exact ⟨n, (r.inv g n).1 hl, by simp [List.getElem?_map, hg, hl]⟩
     | none =>
-      right; exact ⟨(r.inv2.lookup_none g).1 hl, by simp [List.getElem?_map, hg, hl]⟩
+      right; exact ⟨(r.inv.lookup_none g).1 hl, by simp [List.getElem?_map, hg, hl]⟩
 
 /-- CFF private dictionaries: for every glyph `j` of the subset, the private dictionary its new
 FDSelect value selects is the one the original FDSelect selected for the original glyph, and for
 CID-keyed fonts the same holds for the font matrix. -/
 theorem C10_cff_private {f : Font} {glyphs : List Gid} {o : Order} {sub : Sub}
-    (hnd : glyphs.Nodup) (h : subset f glyphs o = .ok sub) (hk : f.isCFF = true)
+    (hnd : glyphs.Nodup) (hp : ∀ k x, (o.rules k x).Perm x)
+    (h : subset f glyphs o = .ok sub) (hk : f.isCFF = true)
     (j : Nat) (old : Gid) (hj : sub.order[j]? = some old) :
     ∃ k : Nat, sub.fdSelect[j]? = some k ∧
       sub.privates[k]? = some (f.privates.getD (f.fdSelect.getD old 0) 0) ∧
       (f.cidKeyed = true → sub.matrices[k]? = some (f.matrices.getD (f.fdSelect.getD old 0) 0)) := by
-  obtain ⟨s1, s2, r⟩ := subset_ok hnd h
+  obtain ⟨s2, r⟩ := subset_ok hnd hp h
   have he := r.eq
   have ho : sub.order = s2.glyphs := by rw [he]; rfl
   rw [ho] at hj
@@ -169,7 +177,8 @@ theorem C10_cff_private {f : Font} {glyphs : List Gid} {o : Order} {sub : Sub}
 lookup indices keep their meaning) and in every subtable a pair `(nl, nr) ↦ adj` is present iff the
 original has `(l, r) ↦ adj` for the glyphs `l`, `r` that are glyphs `nl`, `nr` of the subset. -/
 theorem C10_layout_gpos {f : Font} {glyphs : List Gid} {o : Order} {sub : Sub}
-    (hnd : glyphs.Nodup) (h : subset f glyphs o = .ok sub) :
+    (hnd : glyphs.Nodup) (hp : ∀ k x, (o.rules k x).Perm x)
+    (h : subset f glyphs o = .ok sub) :
     (f.gpos = none → sub.gpos = none) ∧
     ∀ l, f.gpos = some l → ∃ l', sub.gpos = some l' ∧ l'.features = l.features ∧
       l'.lookups.length = l.lookups.length ∧
@@ -177,7 +186,7 @@ theorem C10_layout_gpos {f : Font} {glyphs : List Gid} {o : Order} {sub : Sub}
         ∃ subs', l'.lookups[i]? = some subs' ∧ subs'.length = subs.length ∧
           ∀ (k : Nat) (ps : Pairs), subs[k]? = some ps →
             ∃ ps', subs'[k]? = some ps' ∧ PairsOK sub.order ps ps' := by
-  obtain ⟨s1, s2, r⟩ := subset_ok hnd h
+  obtain ⟨s2, r⟩ := subset_ok hnd hp h
   have he := r.eq
   have ho : sub.order = s2.glyphs := by rw [he]; rfl
   constructor
@@ -189,69 +198,58 @@ theorem C10_layout_gpos {f : Font} {glyphs : List Gid} {o : Order} {sub : Sub}
     refine ⟨subs.map (subPairs s2.newGid), by simp [List.getElem?_map, hi], by simp, ?_⟩
     intro k ps hkk
     refine ⟨subPairs s2.newGid ps, by simp [List.getElem?_map, hkk], ?_⟩
-    rw [ho]; exact subPairs_ok r.inv2 ps
+    rw [ho]; exact subPairs_ok r.inv ps
 
 /-- GSUB: the feature list is unchanged and every lookup keeps its index (emptied lookups are kept),
 so feature → lookup indices still denote the same lookups. -/
 theorem C10_layout_gsub_indices {f : Font} {glyphs : List Gid} {o : Order} {sub : Sub}
-    (hnd : glyphs.Nodup) (h : subset f glyphs o = .ok sub) :
+    (hnd : glyphs.Nodup) (hp : ∀ k x, (o.rules k x).Perm x)
+    (h : subset f glyphs o = .ok sub) :
     (f.gsub = none → sub.gsub = none) ∧
     ∀ l, f.gsub = some l → ∃ l', sub.gsub = some l' ∧ l'.features = l.features ∧
       l'.lookups.length = l.lookups.length := by
-  obtain ⟨s1, s2, r⟩ := subset_ok hnd h
+  obtain ⟨s, r⟩ := subset_ok hnd hp h
   constructor
   · intro hn
-    rcases r.gsubRun with ⟨_, h2, _⟩ | ⟨l, lay, h1, _, _⟩
+    rcases r.gsub with ⟨_, h2⟩ | ⟨l, h1, _, _⟩
     · exact h2
     · rw [hn] at h1; cases h1
   · intro l hl
-    rcases r.gsubRun with ⟨h1, _, _⟩ | ⟨l0, lay, h1, h2, h3⟩
+    rcases r.gsub with ⟨h1, _⟩ | ⟨l0, h1, _, h3⟩
     · rw [hl] at h1; cases h1
     · rw [hl] at h1; injection h1 with h1; subst h1
-      have := subsetGsub_good (init_inv hnd) h2
-      exact ⟨lay, h3, this.2.2.1, this.2.2.2⟩
+      exact ⟨_, h3, rfl, subLookups_length _ _⟩
 
-/-- Full statement of the ligature/substitution closure: every GSUB rule all of whose input glyphs
-are in the subset has its output glyphs in the subset.  Not proved (and false for the code): a
-glyph that enters only as a composite component (after `SubsetGsub` has run) can complete a rule —
-see known finding C10-gsub-over-components. -/
-def C10_closure_rules_full : Prop :=
-  ∀ (f : Font) (glyphs : List Gid) (o : Order) (sub : Sub) (l : Layout GsubSub),
-    glyphs.Nodup → (∀ x, (o.rules x).Perm x) → subset f glyphs o = .ok sub → f.gsub = some l →
-    ∀ r ∈ rulesOf l, (∀ g ∈ r.ins, g ∈ sub.order) → ∀ g ∈ r.outs, g ∈ sub.order
-
-/-- Proved part: the glyph list when `SubsetGsub` returns (`sub.textGlyphs`: requested glyphs first,
-a prefix of the final list) is closed under every GSUB rule (1.1 substitutions and 4.1 ligatures):
-all inputs in it ⇒ all outputs in it.  Holds for every order of the rule list. -/
-theorem C10_closure_rules_partial {f : Font} {glyphs : List Gid} {o : Order} {sub : Sub}
-    {l : Layout GsubSub} (hnd : glyphs.Nodup) (hp : ∀ x, (o.rules x).Perm x)
+/-- Rule closure (1.1 substitutions and 4.1 ligatures), without any side condition: every GSUB rule
+all of whose input glyphs are in the subset has its output glyphs in the subset — also when an
+input glyph entered only as a component of a composite (the joint closure repeats `addGsubGlyphs`
+and `addComponents` until nothing is added).  Holds for every order of the rule lists. -/
+theorem C10_closure_rules {f : Font} {glyphs : List Gid} {o : Order} {sub : Sub}
+    {l : Layout GsubSub} (hnd : glyphs.Nodup) (hp : ∀ k x, (o.rules k x).Perm x)
     (h : subset f glyphs o = .ok sub) (hl : f.gsub = some l) :
-    (∃ e, sub.textGlyphs = glyphs ++ e) ∧ (∃ e, sub.order = sub.textGlyphs ++ e) ∧
-      ∀ r ∈ rulesOf l, (∀ g ∈ r.ins, g ∈ sub.textGlyphs) → ∀ g ∈ r.outs, g ∈ sub.textGlyphs := by
-  obtain ⟨s1, s2, r⟩ := subset_ok hnd h
-  have he := r.eq
-  have ho : sub.order = s2.glyphs := by rw [he]; rfl
-  have ht : sub.textGlyphs = s1.glyphs := by rw [he]; rfl
-  have hg := run_gsub hnd hp r
+    ∀ r ∈ rulesOf l, (∀ g ∈ r.ins, g ∈ sub.order) → ∀ g ∈ r.outs, g ∈ sub.order := by
+  obtain ⟨s, r⟩ := subset_ok hnd hp h
+  have ho : sub.order = s.glyphs := by rw [r.eq]; rfl
   have hr : fontRules f = rulesOf l := by unfold fontRules; rw [hl]
-  rw [hr] at hg
-  refine ⟨by rw [ht]; exact r.ext1, by rw [ho, ht]; exact r.ext2, ?_⟩
   intro ru hru hins g hgm
-  rw [ht] at hins ⊢
-  exact (r.inv1.has_iff g).1 (hg.1 ru hru (fun x hx => (r.inv1.has_iff x).2 (hins x hx)) g hgm)
+  rw [ho] at hins ⊢
+  exact (r.inv.has_iff g).1
+    (r.rules ru (by rw [hr]; exact hru) (fun x hx => (r.inv.has_iff x).2 (hins x hx)) g hgm)
 
-/-- Termination / no oracle needed: for every font, every glyph list and every order of the rule
-list there is a sequence of `pop` results that is a complete run of the composite-closure loop, and
-the round budget of `SubsetGsub` step 2 (`number of rules + 1`) is never exhausted — the model
-answers `.ok` or `.panic` (a glyph id out of range), never "illegal order".  (The loop ends because
-a glyph is put on `todo` only when it is appended, and it is appended at most once.) -/
-theorem C10_closure_total (f : Font) (glyphs : List Gid) (ro : List Rule → List Rule) :
+/-- Termination / no oracle needed: for every font, every duplicate-free glyph list and every choice
+of rule orders (one permutation per round) there are `pop` sequences, one per round of the outer
+loop, that form a complete run: the round budget of `addGsubGlyphs` step 2 (`number of rules + 1`) is
+never exhausted, every `todo` loop has a run, and the outer loop stops — each round that does not
+stop appends a glyph id not seen before below a bound computed from the font.  The model answers
+`.ok` or `.panic` (a glyph id out of range), never "illegal order". -/
+theorem C10_closure_total (f : Font) (glyphs : List Gid) (hnd : glyphs.Nodup)
+    (ro : Nat → List Rule → List Rule) (hp : ∀ k x, (ro k x).Perm x) :
     ∃ pops, ∀ e, subset f glyphs ⟨ro, pops⟩ ≠ .err e :=
-  subset_total f glyphs ro
+  subset_total f glyphs hnd ro hp
 
-/-- Order independence.  For two runs with arbitrary orders (rule permutations, `pop` sequences):
-the SET of retained glyphs is the same — exactly the glyphs reachable from the requested ones through
-GSUB rules and then composite components — and so is the set of text glyphs; the glyph lists are
+/-- Order independence.  For two runs with arbitrary orders (rule permutations and `pop` sequences
+in every round): the SET of retained glyphs is the same — exactly the glyphs reachable from the
+requested ones through GSUB rules and composite components (`Reach`); the glyph lists are
 permutations of each other and both start with the requested glyphs; an old glyph retained at
 position `j1` in one and `j2` in the other has the same payload, width and name, component
 references that denote the same old glyphs, the same CID and the same private dictionary and font
@@ -259,11 +257,10 @@ matrix.  What MAY differ: the positions of the appended extras — hence the num
 component references, cmap targets, encoding entries, glyph ids in GSUB/GPOS rules — and the order
 (numbering) of the private dictionaries; all of these only through the renumbering. -/
 theorem C10_any_order {f : Font} {glyphs : List Gid} {o1 o2 : Order} {sub1 sub2 : Sub}
-    (hnd : glyphs.Nodup) (hp1 : ∀ x, (o1.rules x).Perm x) (hp2 : ∀ x, (o2.rules x).Perm x)
+    (hnd : glyphs.Nodup) (hp1 : ∀ k x, (o1.rules k x).Perm x) (hp2 : ∀ k x, (o2.rules k x).Perm x)
     (h1 : subset f glyphs o1 = .ok sub1) (h2 : subset f glyphs o2 = .ok sub2) :
     (∀ g, g ∈ sub1.order ↔ Reach f glyphs (fontRules f) g) ∧
-    (∀ g, g ∈ sub1.textGlyphs ↔ TextReach glyphs (fontRules f) g) ∧
-    sub1.order.Perm sub2.order ∧ sub1.textGlyphs.Perm sub2.textGlyphs ∧
+    sub1.order.Perm sub2.order ∧
     (∃ e1 e2, sub1.order = glyphs ++ e1 ∧ sub2.order = glyphs ++ e2 ∧ e1.Perm e2) ∧
     ∀ (j1 j2 : Nat) (old : Gid), sub1.order[j1]? = some old → sub2.order[j2]? = some old →
       ∃ g1 g2, sub1.glyphs[j1]? = some g1 ∧ sub2.glyphs[j2]? = some g2 ∧
@@ -275,36 +272,30 @@ theorem C10_any_order {f : Font} {glyphs : List Gid} {o1 o2 : Order} {sub1 sub2 
           (sub1.fdSelect[j1]?).bind (sub1.privates[·]?) = (sub2.fdSelect[j2]?).bind (sub2.privates[·]?) ∧
           (f.cidKeyed = true → (sub1.fdSelect[j1]?).bind (sub1.matrices[·]?) =
             (sub2.fdSelect[j2]?).bind (sub2.matrices[·]?))) := by
-  obtain ⟨a1, a2, ra⟩ := subset_ok hnd h1
-  obtain ⟨b1, b2, rb⟩ := subset_ok hnd h2
+  obtain ⟨a2, ra⟩ := subset_ok hnd hp1 h1
+  obtain ⟨b2, rb⟩ := subset_ok hnd hp2 h2
   have hoa : sub1.order = a2.glyphs := by rw [ra.eq]; rfl
   have hob : sub2.order = b2.glyphs := by rw [rb.eq]; rfl
-  have hta : sub1.textGlyphs = a1.glyphs := by rw [ra.eq]; rfl
-  have htb : sub2.textGlyphs = b1.glyphs := by rw [rb.eq]; rfl
-  have sa := run_order hnd hp1 ra
-  have sb := run_order hnd hp2 rb
-  have ta := (run_gsub hnd hp1 ra).2
-  have tb := (run_gsub hnd hp2 rb).2
+  have sa := ra.reach
+  have sb := rb.reach
   have hperm : sub1.order.Perm sub2.order := by
     rw [hoa, hob]
-    exact perm_of_same_mem ra.inv2.nodup rb.inv2.nodup (fun g => (sa g).trans (sb g).symm)
-  obtain ⟨e1, he1⟩ := ra.ext1.trans ra.ext2
-  obtain ⟨e2, he2⟩ := rb.ext1.trans rb.ext2
-  refine ⟨by rw [hoa]; exact sa, by rw [hta]; exact ta, hperm, ?_, ⟨e1, e2, ?_, ?_, ?_⟩, ?_⟩
-  · rw [hta, htb]
-    exact perm_of_same_mem ra.inv1.nodup rb.inv1.nodup (fun g => (ta g).trans (tb g).symm)
+    exact perm_of_same_mem ra.inv.nodup rb.inv.nodup (fun g => (sa g).trans (sb g).symm)
+  obtain ⟨e1, he1⟩ := ra.ext
+  obtain ⟨e2, he2⟩ := rb.ext
+  refine ⟨by rw [hoa]; exact sa, hperm, ⟨e1, e2, ?_, ?_, ?_⟩, ?_⟩
   · rw [hoa, he1]; rfl
   · rw [hob, he2]; rfl
   · have := hperm
     rw [hoa, hob, he1, he2] at this
     exact (List.perm_append_left_iff _).1 this
   · intro j1 j2 old hj1 hj2
-    obtain ⟨g1, hg1, p1, w1, n1, c1⟩ := (C10_positions hnd h1).2.2.2.2.2 j1 old hj1
-    obtain ⟨g2, hg2, p2, w2, n2, c2⟩ := (C10_positions hnd h2).2.2.2.2.2 j2 old hj2
+    obtain ⟨g1, hg1, p1, w1, n1, c1⟩ := (C10_positions hnd hp1 h1).2.2.2.2.2 j1 old hj1
+    obtain ⟨g2, hg2, p2, w2, n2, c2⟩ := (C10_positions hnd hp2 h2).2.2.2.2.2 j2 old hj2
     refine ⟨g1, g2, hg1, hg2, by rw [p1, p2], by rw [w1, w2], by rw [n1, n2], ?_, ?_⟩
     · intro hk k
-      obtain ⟨g1', hg1', l1, m1⟩ := C10_components hnd h1 hk j1 old hj1
-      obtain ⟨g2', hg2', l2, m2⟩ := C10_components hnd h2 hk j2 old hj2
+      obtain ⟨g1', hg1', l1, m1⟩ := C10_components hnd hp1 h1 hk j1 old hj1
+      obtain ⟨g2', hg2', l2, m2⟩ := C10_components hnd hp2 h2 hk j2 old hj2
       rw [hg1] at hg1'; injection hg1' with hg1'; subst hg1'
       rw [hg2] at hg2'; injection hg2' with hg2'; subst hg2'
       cases hc : (f.glyph old).comps[k]? with
@@ -323,8 +314,8 @@ theorem C10_any_order {f : Font} {glyphs : List Gid} {o1 o2 : Order} {sub1 sub2 
       have e1' := c1 hk
       have e2' := c2 hk
       refine ⟨by rw [e1', e2'], ?_, ?_, ?_⟩
-      · have q1 := C10_cff_cid_encoding hnd h1 hk
-        have q2 := C10_cff_cid_encoding hnd h2 hk
+      · have q1 := C10_cff_cid_encoding hnd hp1 h1 hk
+        have q2 := C10_cff_cid_encoding hnd hp2 h2 hk
         cases ht : f.gidToCID with
         | none => rw [q1.2.1 ht, q2.2.1 ht]; rfl
         | some t =>
@@ -333,17 +324,17 @@ theorem C10_any_order {f : Font} {glyphs : List Gid} {o1 o2 : Order} {sub1 sub2 
           rw [ht1, ht2]
           simp only [Option.map_some]
           rw [m1 j1 old hj1, m2 j2 old hj2]
-      · obtain ⟨k1, f1, pr1, _⟩ := C10_cff_private hnd h1 hk j1 old hj1
-        obtain ⟨k2, f2, pr2, _⟩ := C10_cff_private hnd h2 hk j2 old hj2
+      · obtain ⟨k1, f1, pr1, _⟩ := C10_cff_private hnd hp1 h1 hk j1 old hj1
+        obtain ⟨k2, f2, pr2, _⟩ := C10_cff_private hnd hp2 h2 hk j2 old hj2
         simp [f1, f2, pr1, pr2]
       · intro hcid
-        obtain ⟨k1, f1, _, m1⟩ := C10_cff_private hnd h1 hk j1 old hj1
-        obtain ⟨k2, f2, _, m2⟩ := C10_cff_private hnd h2 hk j2 old hj2
+        obtain ⟨k1, f1, _, m1⟩ := C10_cff_private hnd hp1 h1 hk j1 old hj1
+        obtain ⟨k2, f2, _, m2⟩ := C10_cff_private hnd hp2 h2 hk j2 old hj2
         simp [f1, f2, m1 hcid, m2 hcid]
 
 /-- what it means for the rule list `rs'` of a rebuilt lookup to be the rule list `rs` of the
 original lookup "under the new numbering": `rs'` is `rs` with the rules dropped that have an input
-glyph outside the text glyphs `T`, in the same order, and every kept rule has each glyph id replaced
+glyph outside the subset `T`, in the same order, and every kept rule has each glyph id replaced
 by an index at which the subset holds that very glyph -/
 def RulesOK (T order : List Gid) (rs rs' : List Rule) : Prop :=
   ∃ tr : Rule → Option Rule, rs' = rs.filterMap tr ∧
@@ -354,53 +345,50 @@ def RulesOK (T order : List Gid) (rs rs' : List Rule) : Prop :=
 /-- GSUB rules (1.1 single substitutions, rebuilt as 1.2, and 4.1 ligatures): feature lists and
 lookup indices are unchanged, and the rule list of lookup `i` of the subset (its subtables read in
 order: `from ↦ to` pairs, `first rest… ↦ ligature`) is the rule list of lookup `i` of the original
-restricted to the rules all of whose input glyphs are text glyphs of the subset, in the original
-order, with every glyph id translated to an index holding the same glyph.  A retained rule thus
-maps new ids to new ids exactly as the original maps the corresponding old ids; a rule with a
-dropped input glyph is dropped; priorities (order) are preserved. -/
+restricted to the rules all of whose input glyphs are in the subset, in the original order, with
+every glyph id translated to an index holding the same glyph.  A retained rule thus maps new ids
+to new ids exactly as the original maps the corresponding old ids; a rule with a dropped input
+glyph is dropped; priorities (order) are preserved. -/
 theorem C10_layout_gsub {f : Font} {glyphs : List Gid} {o : Order} {sub : Sub}
-    {l : Layout GsubSub} (hnd : glyphs.Nodup) (hp : ∀ x, (o.rules x).Perm x)
+    {l : Layout GsubSub} (hnd : glyphs.Nodup) (hp : ∀ k x, (o.rules k x).Perm x)
     (h : subset f glyphs o = .ok sub) (hl : f.gsub = some l) :
     ∃ l', sub.gsub = some l' ∧ l'.features = l.features ∧ l'.lookups.length = l.lookups.length ∧
       ∀ (i : Nat) (subs : List GsubSub), l.lookups[i]? = some subs →
         ∃ subs', l'.lookups[i]? = some subs' ∧
-          RulesOK sub.textGlyphs sub.order (subs.flatMap rulesOfSub) (subs'.flatMap outRules) := by
-  obtain ⟨s1, s2, r⟩ := subset_ok hnd h
-  have he := r.eq
-  have ho : sub.order = s2.glyphs := by rw [he]; rfl
-  have ht : sub.textGlyphs = s1.glyphs := by rw [he]; rfl
-  rcases r.gsubRun with ⟨h1, _, _⟩ | ⟨l0, lay, h1, h2, h3⟩
+          RulesOK sub.order sub.order (subs.flatMap rulesOfSub) (subs'.flatMap outRules) := by
+  obtain ⟨s, r⟩ := subset_ok hnd hp h
+  have ho : sub.order = s.glyphs := by rw [r.eq]; rfl
+  have hfr : fontRules f = rulesOf l := by unfold fontRules; rw [hl]
+  rcases r.gsub with ⟨h1, _⟩ | ⟨l0, h1, hst, h3⟩
   · rw [hl] at h1; cases h1
   · rw [hl] at h1; injection h1 with h1; subst h1
-    have hf := subsetGsub_full (init_inv hnd) hp h2
-    have hlen : lay.lookups.length = l.lookups.length := by
-      have := congrArg List.length hf.2.2.2.2.2
-      simpa using this
-    refine ⟨lay, h3, hf.2.2.2.2.1, hlen, ?_⟩
+    have hcl := subLookups_closed s l.lookups (by
+      intro ru hrm; apply r.rules ru; rw [hfr]; simpa [rulesOf] using hrm)
+    refine ⟨_, h3, rfl, subLookups_length _ _, ?_⟩
     intro i subs hi
-    have hlt : i < lay.lookups.length := by
-      rw [hlen]
+    have hlt : i < (subLookups s l.lookups).2.length := by
+      rw [subLookups_length]
       rcases Nat.lt_or_ge i l.lookups.length with h | h
       · exact h
       · rw [List.getElem?_eq_none h] at hi; cases hi
-    refine ⟨lay.lookups[i], List.getElem?_eq_getElem hlt, transRule s1, ?_, ?_⟩
-    · have := congrArg (fun x => x[i]?) hf.2.2.2.2.2
+    refine ⟨(subLookups s l.lookups).2[i], List.getElem?_eq_getElem hlt, transRule s, ?_, ?_⟩
+    · have := congrArg (fun x => x[i]?) hcl.2
       simp only [List.getElem?_map, hi, List.getElem?_eq_getElem hlt, Option.map_some] at this
       injection this
-    · intro ru _
+    · intro ru hru0
       constructor
       · unfold transRule
         constructor
         · intro hn hall
-          have : ru.ins.all s1.has = true := by
+          have : ru.ins.all s.has = true := by
             rw [List.all_eq_true]; intro x hx
-            exact (r.inv1.has_iff x).2 (by rw [← ht]; exact hall x hx)
+            exact (r.inv.has_iff x).2 (by rw [← ho]; exact hall x hx)
           rw [this] at hn; simp at hn
         · intro hn
-          have : ¬ ru.ins.all s1.has = true := by
+          have : ¬ ru.ins.all s.has = true := by
             intro hall; apply hn
             rw [List.all_eq_true] at hall
-            intro x hx; rw [ht]; exact (r.inv1.has_iff x).1 (hall x hx)
+            intro x hx; rw [ho]; exact (r.inv.has_iff x).1 (hall x hx)
           simp [this]
       · intro r' hr'
         unfold transRule at hr'
@@ -408,23 +396,23 @@ theorem C10_layout_gsub {f : Font} {glyphs : List Gid} {o : Order} {sub : Sub}
         · rename_i hall
           injection hr' with hr'; subst hr'
           rw [List.all_eq_true] at hall
-          have key : ∀ gs : List Gid, (∀ x ∈ gs, s1.has x = true) →
-              (gs.map (look s1)).map (sub.order[·]?) = gs.map some := by
+          have key : ∀ gs : List Gid, (∀ x ∈ gs, s.has x = true) →
+              (gs.map (look s)).map (sub.order[·]?) = gs.map some := by
             intro gs hgs
             rw [List.map_map]
             apply List.map_congr_left
             intro x hx
-            have hm := (r.inv1.has_iff x).1 (hgs x hx)
+            have hm := (r.inv.has_iff x).1 (hgs x hx)
             obtain ⟨n, hn⟩ := List.mem_iff_getElem?.1 hm
-            have hlk := (r.inv1 x n).2 hn
+            have hlk := (r.inv x n).2 hn
             simp only [Function.comp, look, hlk, Option.getD_some, ho]
-            exact Ext.get r.ext2 hn
+            exact hn
           refine ⟨key ru.ins hall, key ru.outs ?_⟩
           intro x hx
           have hru : ru ∈ rulesOf l := by
             unfold rulesOf
-            exact List.mem_flatMap.2 ⟨subs, List.mem_of_getElem? hi, ‹ru ∈ subs.flatMap rulesOfSub›⟩
-          exact hf.2.2.1 ru hru hall x hx
+            exact List.mem_flatMap.2 ⟨subs, List.mem_of_getElem? hi, hru0⟩
+          exact r.rules ru (by rw [hfr]; exact hru) hall x hx
         · cases hr'
 
 /-! ### preconditions of the writer (`C10_writable` as far as a model reaches) -/
@@ -433,10 +421,11 @@ theorem C10_layout_gsub {f : Font} {glyphs : List Gid} {o : Order} {sub : Sub}
 those of the original (`C10_cmap`); lookup and feature lists keep their shape
 (`C10_layout_gsub_indices`, `C10_layout_gpos`). -/
 theorem C10_writable_glyphs {f : Font} {glyphs : List Gid} {o : Order} {sub : Sub}
-    (hnd : glyphs.Nodup) (h : subset f glyphs o = .ok sub) (g0 : Gid) (rest : List Gid)
+    (hnd : glyphs.Nodup) (hp : ∀ k x, (o.rules k x).Perm x)
+    (h : subset f glyphs o = .ok sub) (g0 : Gid) (rest : List Gid)
     (hg : glyphs = g0 :: rest) :
     1 ≤ sub.glyphs.length ∧ sub.order[0]? = some g0 := by
-  have hp := C10_positions hnd h
+  have hp := C10_positions hnd hp h
   obtain ⟨e, he⟩ := hp.1
   rw [hp.2.2.2.1, he, hg]
   simp
@@ -445,21 +434,22 @@ theorem C10_writable_glyphs {f : Font} {glyphs : List Gid} {o : Order} {sub : Su
 table" panic): `sortedByNewGid` — the order in which the repaired step 3 hands out coverage indices —
 lists exactly the retained covered glyphs, and their new glyph ids are strictly increasing, which
 is the validity condition of `coverage.Table` (index = rank of the glyph id).  `s1` is the
-subsetter state when `SubsetGsub` rebuilds the tables. -/
+subsetter state when `SubsetGsub` rebuilds the tables (the final one). -/
 theorem C10_writable_coverage {f : Font} {glyphs : List Gid} {o : Order} {sub : Sub}
-    (hnd : glyphs.Nodup) (h : subset f glyphs o = .ok sub) (cov : List Gid) (hc : cov.Nodup) :
-    ∃ s1 : St, s1.glyphs = sub.textGlyphs ∧ (∀ g, s1.has g = true ↔ g ∈ sub.textGlyphs) ∧
-      (∀ g ∈ sub.textGlyphs, sub.textGlyphs[look s1 g]? = some g) ∧
+    (hnd : glyphs.Nodup) (hp : ∀ k x, (o.rules k x).Perm x)
+    (h : subset f glyphs o = .ok sub) (cov : List Gid) (hc : cov.Nodup) :
+    ∃ s1 : St, s1.glyphs = sub.order ∧ (∀ g, s1.has g = true ↔ g ∈ sub.order) ∧
+      (∀ g ∈ sub.order, sub.order[look s1 g]? = some g) ∧
       ((sortedByNewGid s1 cov).map (look s1)).Pairwise (· < ·) ∧
       (sortedByNewGid s1 cov).Perm (cov.filter s1.has) := by
-  obtain ⟨s1, s2, r⟩ := subset_ok hnd h
-  have ht : sub.textGlyphs = s1.glyphs := by rw [r.eq]; rfl
-  have hs := sortedByNewGid_spec r.inv1 hc
-  refine ⟨s1, ht.symm, fun g => by rw [ht]; exact r.inv1.has_iff g, ?_, hs.1, hs.2⟩
+  obtain ⟨s2, r⟩ := subset_ok hnd hp h
+  have ht : sub.order = s2.glyphs := by rw [r.eq]; rfl
+  have hs := sortedByNewGid_spec r.inv hc
+  refine ⟨s2, ht.symm, fun g => by rw [ht]; exact r.inv.has_iff g, ?_, hs.1, hs.2⟩
   intro g hg
   rw [ht] at hg ⊢
   obtain ⟨i, hi⟩ := List.mem_iff_getElem?.1 hg
-  have := (r.inv1 g i).2 hi
+  have := (r.inv g i).2 hi
   simp only [look, this, Option.getD_some]
   exact hi
 
@@ -468,13 +458,14 @@ whenever the retained encoded glyphs come first, i.e. whenever every position be
 position of an encoded glyph holds an encoded glyph.  (Otherwise it fails: known finding
 C10-cff-encoding-order, witness `C10_writable_encoding_witness`.) -/
 theorem C10_writable_encoding {f : Font} {glyphs : List Gid} {o : Order} {sub : Sub}
-    (hnd : glyphs.Nodup) (h : subset f glyphs o = .ok sub) (hk : f.isCFF = true)
+    (hnd : glyphs.Nodup) (hp : ∀ k x, (o.rules k x).Perm x)
+    (h : subset f glyphs o = .ok sub) (hk : f.isCFF = true)
     (e : List Gid) (he : f.encoding = some e)
     (hfirst : ∀ (n m : Nat) (old : Gid), 1 ≤ n → n ≤ m → sub.order[m]? = some old → old ∈ e →
       ∃ old', sub.order[n]? = some old' ∧ old' ∈ e) :
     ∃ e', sub.encoding = some e' ∧ encodingContiguous e' = true := by
-  have hnodup := (C10_positions hnd h).2.1
-  obtain ⟨e', he', hlen, hm⟩ := (C10_cff_cid_encoding hnd h hk).2.2.2 e he
+  have hnodup := (C10_positions hnd hp h).2.1
+  obtain ⟨e', he', hlen, hm⟩ := (C10_cff_cid_encoding hnd hp h hk).2.2.2 e he
   refine ⟨e', he', encodingContiguous_of_downward e' ?_⟩
   intro n m h1 h2 hmem hm0
   -- `m` is the new index of an encoded glyph
@@ -498,7 +489,7 @@ theorem C10_writable_encoding {f : Font} {glyphs : List Gid} {o : Order} {sub : 
     exact List.mem_of_getElem? hn'
   · exact absurd (List.mem_of_getElem? ho') hnot
 
-/-! ### non-vacuity and the witness against the full rule closure -/
+/-! ### non-vacuity -/
 
 /-- 0 .notdef, 1 and 2 simple, 3 = composite of 1 and 2, 4 = ligature of 1 2; cmap A↦1 B↦3 fi↦4;
 kerning (1,2) -/
@@ -512,33 +503,25 @@ def wFont : Font :=
     gsub := some ⟨[[0]], [[.ligs [(1, [([2], 4)])]]]⟩
     gpos := some ⟨[[0]], [[[(1, 2, 50)]]]⟩ }
 
-/-- rules in table order; `pop` returns 0, 3, 1, 2 -/
-def wOrder : Order := ⟨id, [0, 3, 1, 2]⟩
+/-- rules in table order in every round; `pop` returns 0, 3, 1, 2 in round 0 (glyphs 1, 2 enter as
+components of 3), then 0, 3, 1, 2, 4 in rounds 1 (the ligature 1 2 → 4 has fired) and 2 (nothing new) -/
+def wOrder : Order := ⟨fun _ => id, [[0, 3, 1, 2], [0, 3, 1, 2, 4], [0, 3, 1, 2, 4]]⟩
 
-/-- The hypotheses of the theorems are met by a run that appends extras, rewrites component
-references, renumbers the cmap and the kerning pair: subset `[0, 3]` becomes glyphs `[0, 3, 1, 2]`,
-the composite's references `[1, 2]` become `[2, 3]`, `B ↦ 1`, `A ↦ 2`, pair `(2, 3)`. -/
-theorem C10_nonvacuous : ∃ sub, subset wFont [0, 3] wOrder = .ok sub ∧ sub.order = [0, 3, 1, 2] ∧
-    sub.glyphs.map (·.comps) = [[], [2, 3], [], []] ∧
-    sub.cmaps = some [("3.1.0.4", [(65, 2), (66, 1)])] ∧
-    sub.gpos.map (·.lookups) = some [[[(2, 3, 50)]]] :=
-  ⟨_, rfl, rfl, rfl, rfl, rfl⟩
+/-- The hypotheses of the theorems are met by a run that needs a second round: subset `[0, 3]`
+becomes glyphs `[0, 3, 1, 2, 4]` — 1 and 2 as components of 3, then 4 as the ligature of 1 and 2
+(the input of the former known finding C10-gsub-over-components) —, the composite's references
+`[1, 2]` become `[2, 3]`, `B ↦ 1`, `A ↦ 2`, `fi ↦ 4`, pair `(2, 3)`, ligature `2 3 → 4`. -/
+theorem C10_nonvacuous : ∃ sub, subset wFont [0, 3] wOrder = .ok sub ∧ sub.order = [0, 3, 1, 2, 4] ∧
+    sub.glyphs.map (·.comps) = [[], [2, 3], [], [], []] ∧
+    sub.cmaps = some [("3.1.0.4", [(65, 2), (66, 1), (64257, 4)])] ∧
+    sub.gpos.map (·.lookups) = some [[[(2, 3, 50)]]] ∧
+    sub.gsub.map (fun l => l.lookups) = some [[.ligs [(2, [([3], 4)])]]] :=
+  ⟨_, rfl, rfl, rfl, rfl, rfl, rfl⟩
 
-example : ∃ sub, subset wFont [0, 1, 2] ⟨id, [4, 2, 1, 0]⟩ = .ok sub ∧ sub.order = [0, 1, 2, 4] ∧
+example : ∃ sub, subset wFont [0, 1, 2] ⟨fun _ => id, [[4, 2, 1, 0], [4, 2, 1, 0]]⟩ = .ok sub ∧
+    sub.order = [0, 1, 2, 4] ∧
     sub.gsub.map (fun l => l.lookups) = some [[.ligs [(1, [([2], 3)])]]] :=
   ⟨_, rfl, rfl, rfl⟩
-
-/-- The full rule closure fails for the code as it is: in `wFont`, subsetting to `[0, 3]` brings in
-glyphs 1 and 2 as components of 3 after `SubsetGsub` has run, so the ligature `1 2 → 4` has all its
-inputs in the subset but its output is missing (and the rule is dropped). -/
-theorem C10_closure_rules_full_false : ¬ C10_closure_rules_full := by
-  intro hfull
-  obtain ⟨sub, hs, ho, _⟩ := C10_nonvacuous
-  have := hfull wFont [0, 3] wOrder sub ⟨[[0]], [[.ligs [(1, [([2], 4)])]]]⟩ (by decide)
-    (fun x => List.Perm.refl x) hs rfl ⟨[1, 2], [4]⟩ (by decide) (by rw [ho]; decide) 4 (by simp)
-  rw [ho] at this
-  revert this
-  decide
 
 /-- a simple CFF font whose encoding gives codes 65, 66 to glyphs 1, 2 (contiguous) -/
 def wCff : Font :=
@@ -554,9 +537,9 @@ subset `[0, 3, 2]` puts the unencoded glyph 3 before the encoded glyph 2 and its
 the writer's condition; `[0, 2, 3]` satisfies it. -/
 theorem C10_writable_encoding_witness :
     (wCff.encoding.map encodingContiguous = some true) ∧
-    (∃ sub, subset wCff [0, 3, 2] ⟨id, []⟩ = .ok sub ∧
+    (∃ sub, subset wCff [0, 3, 2] ⟨fun _ => id, [[]]⟩ = .ok sub ∧
       sub.encoding.map encodingContiguous = some false) ∧
-    (∃ sub, subset wCff [0, 2, 3] ⟨id, []⟩ = .ok sub ∧
+    (∃ sub, subset wCff [0, 2, 3] ⟨fun _ => id, [[]]⟩ = .ok sub ∧
       sub.encoding.map encodingContiguous = some true) := by
   refine ⟨by decide, ⟨_, rfl, by decide⟩, ⟨_, rfl, by decide⟩⟩
 
